@@ -114,8 +114,39 @@ let unmapped seq =
   { r_name = None; r_flags = n_of_int 4; r_rid = None; r_pos = None; r_mapq = None; r_cigar = [];
     r_mrid = None; r_mpos = None; r_tlen = Z0; r_seq = seq; r_qual = []; r_data = [] }
 
+(* ---- file level: printing of NV.Bam.File results *)
+let end_obs = function EndEof -> "Eof" | EndErr e -> "Err:" ^ errs e | EndNoFuel -> "NoFuel"
+
+let read_obs stream =
+  match read_file stream with
+  | Err e -> "H:Err:" ^ errs e
+  | Ok (h, (recs, e)) ->
+      let htext = match write_header h with Some t -> short_or_digest (hex_of_bytes t) | None -> "Unwritable" in
+      let canon_all = String.concat ";" (List.map (fun r -> short_or_digest (canon r)) recs) in
+      let lz = match read_file_lazy stream with
+        | Ok (sizes, le) -> short_or_digest (String.concat "," (List.map dec_of_n sizes)) ^ ":" ^ end_obs le
+        | Err _ -> "-:-" in
+      Printf.sprintf "H:%s|R:%d:%s|E:%s|L:%s" htext (List.length recs) (short_or_digest canon_all) (end_obs e) lz
+
+(* the records of a `file` case: 12 fields each from index [from] on; parse_rec reads indices 2..13 *)
+let file_recs a from =
+  let n = int_of_string a.(from) in
+  List.init n (fun i -> parse_rec (Array.append [| "raw"; "0" |] (Array.sub a (from + 1 + 12 * i) 12)))
+
 let handle kind a =
   match kind with
+  | "file" ->
+      (match file_of_text (bytes_of_hex a.(1)) (file_recs a 2) with
+       | None -> Some "-"
+       | Some (Err e) -> Some ("W:Err:" ^ errs e)
+       | Some (Ok stream) ->
+           let base = "W:" ^ bytes_obs stream ^ "|" ^ read_obs stream in
+           if a.(0) = "bgzf0" then begin
+             let file = bgzf_file_l0 stream in
+             let u = match bgzf_read_l0 file with Some un -> bytes_obs un | None -> "Err" in
+             Some (base ^ "|Z:" ^ bytes_obs file ^ "|U:" ^ u)
+           end else Some base)
+  | "fread" -> Some (read_obs (bytes_of_hex a.(0)))
   | "rec" ->
       let r = parse_rec a in
       (match encode (n_of_dec a.(1)) r with
